@@ -55,17 +55,26 @@ func roundTrip(v valgen.Val) (f *vh.Failure) {
 		}
 	}()
 	dt := asetypes.DataType(v.T)
-	bs, err := dt.Bytes(le, valgen.ToGo(v), valgen.BytesLength(v))
+	goVal := valgen.ToGo(v)
+	// the caller (or the library's package logging, Info.DebugLogPackages) may print a value
+	// at any time; looking at a value must not change what is sent or what was received
+	look(goVal)
+	bs, err := dt.Bytes(le, goVal, valgen.BytesLength(v))
 	if err != nil {
 		return vh.Failf(class(v), "%s: Bytes(%v) failed: %v", dt, short(valgen.ToGo(v)), err)
 	}
 	if v.Null && len(bs) != 0 {
 		return vh.Failf(class(v), "%s: NULL encoded to %d bytes", dt, len(bs))
 	}
+	// the same Go value sent a second time (a statement executed twice with one argument)
+	if again, err := dt.Bytes(le, goVal, valgen.BytesLength(v)); err != nil || !bytes.Equal(again, bs) {
+		return vh.Failf("C04/value-changed-by-use", "%s %s: encoding the same Go value a second time gives % x (err %v), the first time % x", dt, valgen.Key(v), head(again), err, head(bs))
+	}
 	got, err := dt.GoValue(le, bs)
 	if err != nil {
 		return vh.Failf(class(v), "%s: GoValue(% x) of encoded %v failed: %v", dt, head(bs), short(valgen.ToGo(v)), err)
 	}
+	look(got)
 	if err := valgen.Match(v, got); err != nil {
 		return vh.Failf(class(v), "%s: %v (wire % x)", dt, err, head(bs))
 	}
@@ -87,6 +96,16 @@ func roundTrip(v valgen.Val) (f *vh.Failure) {
 		}
 	}
 	return nil
+}
+
+// look prints a value the way a log line would (plain strings and byte slices have no
+// formatting code of the library behind them and are skipped for speed)
+func look(x interface{}) {
+	switch x.(type) {
+	case string, []byte:
+	default:
+		_ = fmt.Sprintf("%v", x)
+	}
 }
 
 func numericAware(v valgen.Val, a, b []byte) bool { return bytes.Equal(a, b) }
@@ -335,6 +354,7 @@ func runPkgLeg(c pkgLegCase) (f *vh.Failure) {
 		for i, v := range c.Vals {
 			(*fields)[i].SetValue(valgen.ToGo(v))
 		}
+		_ = fmt.Sprintf("TX: %s", data) // what Info.DebugLogPackages does with every package sent
 		out := flatch.New(nil)
 		if err := data.WriteTo(out); err != nil {
 			return vh.Failf(classOf(c)+"-package-write", "writing %s inside a %#x package failed: %v", describe(c), c.Tok, err)
@@ -349,6 +369,7 @@ func runPkgLeg(c pkgLegCase) (f *vh.Failure) {
 		for i, v := range vals {
 			(*fields)[i].SetValue(valgen.ToGo(v))
 		}
+		_ = fmt.Sprintf("TX: %s", data)
 		out := flatch.New(nil)
 		if err := data.WriteTo(out); err != nil {
 			return vh.Failf("C04/package-reused-write", "row %d through the same package object: writing %s failed: %v", ri+2, describe(pkgLegCase{Vals: vals}), err)
@@ -370,6 +391,7 @@ func readBack(c pkgLegCase, vals []valgen.Val, wire []byte, fmtPkg tds.Package, 
 	if err != nil || rch.Left() != 0 {
 		return vh.Failf(classOf(c)+"-package-read", "reading back %s: %v (%d bytes left)", describe(c), err, rch.Left())
 	}
+	_ = fmt.Sprintf("RX: %s", back) // ... and with every package received
 	var got []tds.FieldData
 	switch b := back.(type) {
 	case *tds.RowPackage:
